@@ -416,6 +416,12 @@ namespace GeographicLib {
     north = Math::LatFix(north);
     west = Math::AngNormalize(west); // west in [-180, 180)
     east = Math::AngNormalize(east);
+    if (isnan(south) || isnan(north) || isnan(west) || isnan(east)) {
+      // The area is undefined (a NaN, infinite or out-of-range argument), so
+      // there's nothing to cache.
+      CacheClear();
+      return;
+    }
     if (east <= west)
       east += Math::td;         // east - west in (0, 360]
     int
